@@ -222,9 +222,8 @@ class Record:
             list_values = []
             for list_value in value:
                 if isinstance(list_value, dict):
-                    # List values that are dicts must be converted to tuples
-                    dict_as_tuple = tuple(list_value.items())
-                    list_values.append(dict_as_tuple)
+                    # List values that are dicts must be made hashable, independent of their insertion order
+                    list_values.append(_freeze(list_value))
                 else:
                     list_values.append(list_value)
             record_values.append(tuple(list_values))
@@ -242,11 +241,12 @@ class Record:
 
 
 def _freeze(value):
-    """Return a hashable equivalent of a packed value: lists and dicts become tuples, recursively."""
+    """Return a hashable equivalent of a packed value: lists become tuples and dicts frozensets, recursively."""
     if isinstance(value, (list, tuple)):
         return tuple(_freeze(v) for v in value)
     if isinstance(value, dict):
-        return tuple((k, _freeze(v)) for k, v in value.items())
+        # equal dicts must hash equal whatever their insertion order
+        return frozenset((k, _freeze(v)) for k, v in value.items())
     return value
 
 
